@@ -121,12 +121,12 @@ theorem FootB'.scanEq {c c' : Ctx} (h : FootB' c c') : ScanEq c c' := by
   obtain ⟨_, _, _, _, rfl⟩ := h; exact ⟨rfl, rfl, rfl⟩
 
 theorem ScanM.pure {α} (a : α) : ScanM (Pure.pure a : PM α) := by
-  intro c r c' h; rw [run_pure] at h; cases h; exact ScanEq.rfl' _
+  intro c r c' h; rw [prun_pure] at h; cases h; exact ScanEq.rfl' _
 theorem ScanM.throw {α} (e : Abort) : ScanM (throw e : PM α) := by
-  intro c r c' h; rw [run_throw] at h; cases h; exact ScanEq.rfl' _
+  intro c r c' h; rw [prun_throw] at h; cases h; exact ScanEq.rfl' _
 theorem ScanM.bind {α β} {m : PM α} {f : α → PM β} (h1 : ScanM m) (h2 : ∀ a, ScanM (f a)) : ScanM (m >>= f) := by
   intro c r c' h
-  rw [run_bind] at h
+  rw [prun_bind] at h
   rcases hr : run m c with ⟨r1, c1⟩
   rw [hr] at h
   have e1 := h1 c r1 c1 hr
@@ -167,7 +167,7 @@ theorem ScanM.peekLoop (D : List Dialect) (cap : Nat) (stop : Bool) (la : LookAh
 
 theorem run_lookaheadPure (D : List Dialect) (cap : Nat) (stop : Bool) (la : LookAhead) (c : Ctx) :
     run (lookaheadPure D cap stop la) c = run (peekLoop D cap stop la c.lines (c.lineNo + 1)) c := by
-  rw [lookaheadPure, run_bind, run_get]
+  rw [lookaheadPure, prun_bind, run_get]
 
 theorem ScanM.lookaheadPure (D : List Dialect) (cap : Nat) (stop : Bool) (la : LookAhead) :
     ScanM (Spec.lookaheadPure D cap stop la) := by
@@ -213,7 +213,7 @@ theorem finish_clean {D : List Dialect} {T : Table} {μ : MState} {l : Str} {ls 
     (hμ1 : c1.μ = muAfter D μ l b.kind)
     (hpre : AR c1 ∨ (NR c1 ∧ textAccepts D T b.target (muAfter D μ l b.kind) ls = false)) :
     (c'.lines = c1.lines ∧ c'.lineNo = c1.lineNo) ∧ Clean D T μ l ls b r c' := by
-  rw [run_bind] at h
+  rw [prun_bind] at h
   rcases hr2 : run (runProds T.errorCap false t1 b.prods) c1 with ⟨r2, c2⟩
   rw [hr2] at h
   obtain ⟨hf2, heff2, har2⟩ := runProds_spec b.prods hr2
@@ -229,7 +229,7 @@ theorem finish_clean {D : List Dialect} {T : Table} {μ : MState} {l : Str} {ls 
     exact ⟨⟨hsc.2.1, hsc.2.2⟩, ⟨(fun s' hs => by cases hs), hpost⟩⟩
   | ok _ =>
     dsimp only at h
-    rw [run_pure] at h
+    rw [prun_pure] at h
     cases h
     exact ⟨⟨hsc.2.1, hsc.2.2⟩, ⟨(fun s' hs => by cases hs; exact ⟨rfl, hμ2.trans hμ1⟩), hpost⟩⟩
 
@@ -252,23 +252,23 @@ theorem line_step {D : List Dialect} {T : Table} (hf : textDialectFacts D = true
     left
     rcases hpre with hc | ⟨-, -, -, hn⟩
     · -- the unexpected-line error is recorded
-      rw [tryBranches, run_bind, run_modify] at h
+      rw [tryBranches, prun_bind, run_modify] at h
       dsimp only at h
       simp only [Bool.false_eq_true, if_false] at h
-      rw [run_bind] at h
+      rw [prun_bind] at h
       rcases ha : run (addError T.errorCap (unexpectedErr row t)) { c with unexpected := c.unexpected ++ [t.lineNo] }
         with ⟨r2, c2⟩
       rw [ha] at h
       have hnr := addError_bad ha (unexpectedErr_bad row t) hc
       cases r2 with
-      | ok _ => dsimp only at h; rw [run_pure] at h; cases h; exact hnr
+      | ok _ => dsimp only at h; rw [prun_pure] at h; cases h; exact hnr
       | error a => cases h; exact hnr
     · cases hn
   | cons b0 rest ih =>
     intro hgt t hl c hcμ hcl hpre r c' h
     simp only [guardTail, Bool.and_eq_true, Bool.or_eq_true, beq_iff_eq] at hgt
     obtain ⟨hhead, hgt'⟩ := hgt
-    rw [tryBranchesPure, run_bind] at h
+    rw [tryBranchesPure, prun_bind] at h
     rcases hr1 : run (matchP D T.errorCap false b0.kind t) c with ⟨r1, c1⟩
     rw [hr1] at h
     obtain ⟨hf1, heff1, hyes, hno⟩ := matchP_text hl hr1
@@ -332,7 +332,7 @@ theorem line_step {D : List Dialect} {T : Table} (hf : textDialectFacts D = true
       | none =>
         rw [hg] at h
         dsimp only at h
-        rw [run_bind, run_pure] at h
+        rw [prun_bind, prun_pure] at h
         dsimp only at h
         simp only [if_true] at h
         have hok : (passes (intrinsicKind D μ l) b0.kind && guardOkAbs T b0 (kindsOf D μ ls)) = true := by
@@ -368,7 +368,7 @@ theorem line_step {D : List Dialect} {T : Table} (hf : textDialectFacts D = true
         | none =>
           rw [hla] at h
           dsimp only at h
-          rw [run_bind, run_throw] at h
+          rw [prun_bind, prun_throw] at h
           cases h
           have hgo : guardOkAbs T b0 (kindsOf D μ ls) = false := by unfold guardOkAbs; rw [hg]; dsimp only; rw [hla]
           have hfail : (passes (intrinsicKind D μ l) b0.kind && guardOkAbs T b0 (kindsOf D μ ls)) = false := by
@@ -389,7 +389,7 @@ theorem line_step {D : List Dialect} {T : Table} (hf : textDialectFacts D = true
         | some la =>
           rw [hla] at h
           dsimp only at h
-          rw [run_bind] at h
+          rw [prun_bind] at h
           rcases hrl : run (lookaheadPure D T.errorCap false la) c1 with ⟨r2, c2⟩
           rw [hrl] at h
           have hgrow2 := (EffM.lookaheadPure D T.errorCap la c1 r2 c2 hrl).1
@@ -521,22 +521,22 @@ theorem eof_step {D : List Dialect} {T : Table} (row : StateRow) :
   induction bs with
   | nil =>
     intro _ t _ c hc r c' h
-    rw [tail_pure_eq D T false row (t := t) (t' := t) rfl rfl, tryBranches, run_bind, run_modify] at h
+    rw [tail_pure_eq D T false row (t := t) (t' := t) rfl rfl, tryBranches, prun_bind, run_modify] at h
     dsimp only at h
     simp only [Bool.false_eq_true, if_false] at h
-    rw [run_bind] at h
+    rw [prun_bind] at h
     rcases ha : run (addError T.errorCap (unexpectedErr row t)) { c with unexpected := c.unexpected ++ [t.lineNo] }
       with ⟨r2, c2⟩
     rw [ha] at h
     have hnr := addError_bad ha (unexpectedErr_bad row t) hc
     rw [pickBranch]
     cases r2 with
-    | ok _ => dsimp only at h; rw [run_pure] at h; cases h; exact hnr
+    | ok _ => dsimp only at h; rw [prun_pure] at h; cases h; exact hnr
     | error a => cases h; exact hnr
   | cons b0 rest ih =>
     intro hgt t hl c hc r c' h
     simp only [guardTail, Bool.and_eq_true, Bool.or_eq_true, beq_iff_eq] at hgt
-    rw [tryBranchesPure, run_bind] at h
+    rw [tryBranchesPure, prun_bind] at h
     rcases hr1 : run (matchP D T.errorCap false b0.kind t) c with ⟨r1, c1⟩
     rw [hr1] at h
     obtain ⟨hf1, hμ1, he1, t1, rfl, hl1⟩ := matchP_eofTok hl hr1
@@ -558,18 +558,18 @@ theorem eof_step {D : List Dialect} {T : Table} (row : StateRow) :
         · rw [hn.1.1] at hk; cases hk
       rw [hg] at h
       dsimp only at h
-      rw [run_bind, run_pure] at h
+      rw [prun_bind, prun_pure] at h
       dsimp only at h
       simp only [if_true] at h
       rw [guardOk_unguarded hg]
       simp only [Bool.and_self, if_true]
-      rw [run_bind] at h
+      rw [prun_bind] at h
       rcases hr2 : run (runProds T.errorCap false t1 b0.prods) c1 with ⟨r2, c2⟩
       rw [hr2] at h
       obtain ⟨-, -, har2⟩ := runProds_spec b0.prods hr2
       cases r2 with
       | error a => cases h; exact har2 hAR1
-      | ok _ => dsimp only at h; rw [run_pure] at h; cases h; exact har2 hAR1
+      | ok _ => dsimp only at h; rw [prun_pure] at h; cases h; exact har2 hAR1
 
 /-! ### the whole loop -/
 
@@ -602,12 +602,12 @@ theorem lines_sim {D : List Dialect} {T : Table} (hf : textDialectFacts D = true
   induction fuel with
   | zero =>
     intro s p _ hp r c' h
-    rw [parseLinesPure, run_throw] at h
+    rw [parseLinesPure, prun_throw] at h
     cases h
     exact ⟨fun _ => hp, fun _ => .inr ⟨_, rfl, .inr (.inl rfl)⟩⟩
   | succ fuel ih =>
     intro s p hμ hp r c' h
-    rw [pure_step, run_bind] at h
+    rw [pure_step, prun_bind] at h
     rcases hr1 : run (matchTokenPure D T false s { line := p.lines.head?, lineNo := p.lineNo + 1 })
       { p with lines := p.lines.tail, lineNo := p.lineNo + 1, reads := p.reads ++ [p.lineNo + 1] } with ⟨r1, c1⟩
     rw [hr1] at h
@@ -617,14 +617,14 @@ theorem lines_sim {D : List Dialect} {T : Table} (hf : textDialectFacts D = true
         then Pure.pure s' else parseLinesPure D T false fuel s') c1 = (r, c') → NR c' := by
       intro s' hn hrun
       split at hrun
-      · rw [run_pure] at hrun; cases hrun; exact hn
+      · rw [prun_pure] at hrun; cases hrun; exact hn
       · exact (EffM.parseLinesPure D T fuel s' c1 r c' hrun).1.nr hn
     unfold matchTokenPure at hr1
     cases hrow : T.row? s with
     | none =>
       rw [hrow] at hr1
       dsimp only at hr1
-      rw [run_throw] at hr1
+      rw [prun_throw] at hr1
       cases hr1
       cases h
       have hta : textAccepts D T s p.μ p.lines = false := by
@@ -651,7 +651,7 @@ theorem lines_sim {D : List Dialect} {T : Table} (hf : textDialectFacts D = true
           | ok s' =>
             dsimp only at h
             have : ({ line := ([] : List Str).head?, lineNo := p.lineNo + 1 } : Token).eof = true := rfl
-            rw [if_pos this, run_pure] at h
+            rw [if_pos this, prun_pure] at h
             cases h; rfl
         subst hfin
         cases hp' : pickBranch T .EOF [] row.branches with
@@ -762,9 +762,9 @@ theorem body_sim {D : List Dialect} {T : Table} (hf : textDialectFacts D = true)
     (h : run (parseBodyPure D T false n) p = (r, c')) :
     (textAccepts D T 0 p.μ p.lines = true → OutA r) ∧
     (textAccepts D T 0 p.μ p.lines = false → OutB T.errorCap r) := by
-  rw [parseBodyPure, run_bind, run_modify] at h
+  rw [parseBodyPure, prun_bind, run_modify] at h
   dsimp only at h
-  rw [run_bind] at h
+  rw [prun_bind] at h
   rcases hr1 : run (parseLinesPure D T false (n + 2) 0) { p with β := p.β.startRule T.startRule } with ⟨r1, c1⟩
   rw [hr1] at h
   have hsim := lines_sim hf F (n + 2) 0 { p with β := p.β.startRule T.startRule } hμ hp r1 c1 hr1
@@ -776,7 +776,7 @@ theorem body_sim {D : List Dialect} {T : Table} (hf : textDialectFacts D = true)
     exact ⟨fun hta => outA_of_abOK (heff1.2 _ rfl) (hsim.1 hta), fun _ => outB_of_abOK (heff1.2 _ rfl)⟩
   | ok s1 =>
     dsimp only at h
-    rw [run_bind] at h
+    rw [prun_bind] at h
     rcases hr2 : run (runProd T.errorCap false default (.end_ T.startRule)) c1 with ⟨r2, c2⟩
     rw [hr2] at h
     obtain ⟨-, heff2, har2⟩ := runProd_spec hr2
@@ -792,11 +792,11 @@ theorem body_sim {D : List Dialect} {T : Table} (hf : textDialectFacts D = true)
       exact ⟨fun hta => outA_of_abOK (heff2.2 _ rfl) (hA2 hta), fun _ => outB_of_abOK (heff2.2 _ rfl)⟩
     | ok _ =>
       dsimp only at h
-      rw [run_bind, run_get] at h
+      rw [prun_bind, run_get] at h
       dsimp only at h
       split at h
       · rename_i hne
-        rw [run_bind, run_throw] at h
+        rw [prun_bind, prun_throw] at h
         cases h
         refine ⟨fun hta e he => (hA2 hta e he).1, fun hta => ?_⟩
         obtain ⟨e, he, hk⟩ := hB2 hta
@@ -811,9 +811,9 @@ theorem body_sim {D : List Dialect} {T : Table} (hf : textDialectFacts D = true)
           obtain ⟨e, he, -⟩ := hB2 hta
           rw [hemp] at he; cases he
         split at h
-        · rw [run_pure] at h; cases h; exact ⟨fun _ => trivial, fun hta => (hnoB hta).elim⟩
-        · rw [run_throw] at h; cases h; exact ⟨fun _ => trivial, fun _ => trivial⟩
-        · rw [run_throw] at h; cases h; exact ⟨fun _ => trivial, fun _ => trivial⟩
+        · rw [prun_pure] at h; cases h; exact ⟨fun _ => trivial, fun hta => (hnoB hta).elim⟩
+        · rw [prun_throw] at h; cases h; exact ⟨fun _ => trivial, fun _ => trivial⟩
+        · rw [prun_throw] at h; cases h; exact ⟨fun _ => trivial, fun _ => trivial⟩
         · rename_i e he
           exact absurd he (result_not_ast _ _)
 
